@@ -269,6 +269,57 @@ class SimStorage:
         return self._cache
 
 
+class Mix:
+    """a plain pair object whose children may be objects of any other storage kind"""
+
+    __slots__ = ("atom", "pair")
+
+    def __init__(self, l, r):
+        self.atom = None
+        self.pair = (l, r)
+
+
+def build_mixed(tree, expect, mod, rng, stats):
+    """The tree as a plain-Python spine whose sub-trees are handles into *several* backing
+    stores of the same tree (LazyNodes of three different allocators, a CLVMTree, a Program),
+    reached by walking .pair from each store's root, so handles of one store are visited
+    before and after handles of another."""
+    m, Program, CLVMTree = mod
+    roots = {
+        "lazy_legacy": m.deser_legacy(expect),
+        "lazy_backrefs": m.deser_backrefs(m.ser_backrefs(m.deser_legacy(expect))),
+        "lazy_2026": m.deser_2026(m.ser_2026(m.deser_legacy(expect))),
+        "clvm_tree": CLVMTree.from_bytes(expect),
+        "program": Program.to(tree),
+    }
+    kinds = sorted(roots)
+
+    def handle(kind, path):
+        obj = roots[kind]
+        for step in path:
+            obj = obj.pair[step]
+        return obj
+
+    # iterative build (post-order) to survive deep trees
+    out = {}
+    stack = [(tree, (), False)]
+    while stack:
+        node, path, done = stack.pop()
+        if done:
+            out[path] = Mix(out.pop(path + (0,)), out.pop(path + (1,)))
+            stats["mix_nodes"] = stats.get("mix_nodes", 0) + 1
+            continue
+        if isinstance(node, (bytes, bytearray)) or len(path) > 40 or rng.chance(1, 3):
+            k = kinds[rng.below(len(kinds))]
+            out[path] = handle(k, path)
+            stats["mix_handles." + k] = stats.get("mix_handles." + k, 0) + 1
+            continue
+        stack.append((node, path, True))
+        stack.append((node[1], path + (1,), False))
+        stack.append((node[0], path + (0,), False))
+    return out[()]
+
+
 WRAPPERS = [
     "program_to",
     "clvm_tree",
@@ -281,6 +332,8 @@ WRAPPERS = [
     "sim_storage",
     "program_wrap_sim_storage",
     "lazy_of_lazy",
+    "mixed",
+    "program_wrap_mixed",
 ]
 
 
@@ -323,6 +376,10 @@ def execute_case(case, mod):
         x = Program.wrap(SimStorage(tree, dec, stats))
     elif w == "lazy_of_lazy":
         x = m.clvm_tree_to_lazy_node(m.deser_legacy(expect))
+    elif w == "mixed":
+        x = build_mixed(tree, expect, mod, Rng(case.get("decision_seed", 0) ^ 0x5151), stats)
+    elif w == "program_wrap_mixed":
+        x = Program.wrap(build_mixed(tree, expect, mod, Rng(case.get("decision_seed", 0) ^ 0x5151), stats))
     else:
         raise ValueError("unknown wrapper " + w)
     try:
@@ -357,7 +414,7 @@ def generate_case(master, tier, run):
         max_leaves = 300 if tier == "thorough" else 120
     tree = gen_tree(rng, max_leaves)
     # lazy wrappers and the simulated storage get most of the weight
-    w = WRAPPERS[rng.below(len(WRAPPERS))] if rng.chance(1, 2) else ["sim_storage", "lazy_legacy", "lazy_backrefs", "program_wrap_lazy", "program_wrap_sim_storage", "lazy_2026"][rng.below(6)]
+    w = WRAPPERS[rng.below(len(WRAPPERS))] if rng.chance(1, 2) else ["sim_storage", "lazy_legacy", "lazy_backrefs", "program_wrap_lazy", "program_wrap_sim_storage", "lazy_2026", "mixed", "mixed"][rng.below(8)]
     return {"tree": tree_to_json(tree), "wrapper": w, "decision_seed": rng.next(), "churn": rng.chance(3, 4)}
 
 
@@ -588,7 +645,7 @@ def parent(tier, master, runs, workers, budget_s):
     wall = time.time() - t0
     samples = sorted(merged["samples"], key=lambda s: s["run"])[:4] or [{"note": "no non-trivial case"}]
     reach = []
-    for probe in ("fault.fresh_children", "fault.junk_alloc_free", "fault.gc_collect", "probe.wrapper.lazy_legacy", "probe.wrapper.sim_storage"):
+    for probe in ("fault.fresh_children", "fault.junk_alloc_free", "fault.gc_collect", "probe.wrapper.lazy_legacy", "probe.wrapper.sim_storage", "probe.wrapper.mixed", "fault.mix_handles.lazy_backrefs"):
         if merged["counters"].get(probe, 0) == 0:
             reach.append("probe '%s' never fired in this batch" % probe)
     ev = {
@@ -599,7 +656,7 @@ def parent(tier, master, runs, workers, budget_s):
         "coverage": {
             "evaluations": merged["runs"],
             "distinct_nontrivial": len(fps),
-            "rule": "case = seeded tree (1..120 leaves, thorough 300; shared sub-trees; atom classes nil / 1 byte / short / 32 / ~64 bytes) offered through one of 11 wrappers: Program.to, CLVMTree.from_bytes, LazyNode from deser_legacy / deser_backrefs / deser_2026 / deser_auto, Program.wrap of a LazyNode / CLVMTree / simulated storage, a LazyNode produced by clvm_tree_to_lazy_node itself, and a harness storage object whose .pair decides per call - from the run PRNG, recorded as an explicit list for replay - whether to return cached or fresh child objects, whether to run gc.collect(), and how many same-size junk objects to allocate and free first (address-reuse churn). Oracle: ser_legacy(deser_2026(ser_2026(result))) and ser_legacy(result) equal the harness's own classic serialization of the tree. Non-trivial: tree with >= 2 pairs; distinct = sha256 fingerprints of (tree, wrapper, outcome).",
+            "rule": "case = seeded tree (1..120 leaves, thorough 300; shared sub-trees; atom classes nil / 1 byte / short / 32 / ~64 bytes) offered through one of 13 wrappers: Program.to, CLVMTree.from_bytes, LazyNode from deser_legacy / deser_backrefs / deser_2026 / deser_auto, Program.wrap of a LazyNode / CLVMTree / simulated storage, a LazyNode produced by clvm_tree_to_lazy_node itself, a MIXED tree (plain-Python spine whose sub-trees are handles walked out of three LazyNode allocators, a CLVMTree and a Program of the same tree; also under Program.wrap), and a harness storage object whose .pair decides per call - from the run PRNG, recorded as an explicit list for replay - whether to return cached or fresh child objects, whether to run gc.collect(), and how many same-size junk objects to allocate and free first (address-reuse churn). Oracle: ser_legacy(deser_2026(ser_2026(result))) and ser_legacy(result) equal the harness's own classic serialization of the tree. Non-trivial: tree with >= 2 pairs; distinct = sha256 fingerprints of (tree, wrapper, outcome).",
             "samples": samples,
             "simulated_runs": merged["runs"],
             "nontrivial_runs": merged["nontrivial"],
